@@ -346,9 +346,10 @@ let judge_line (line : string) =
       let flags = { fl_plus = (f land 8 <> 0); fl_space = (f land 4 <> 0); fl_minus = (f land 2 <> 0); fl_zero = (f land 1 <> 0);
                     fl_width = (if w = "-" then None else Some (z_of_dec_string w)) } in
       report line (judge_format_verb (dec_req d) flags (z_of_int (Char.code verb.[0])) (str_of_hex out))
-  | ["cd"; d], [r] ->
-      bump opcount "ComposeDecompose"; Hashtbl.replace nontrivial d ();
-      report line (judge_compose (dec_req d) (if r = "err" then None else dec_of_token r))
+  | ["cd"; d; prev], [fm; ng; co; e; r] ->
+      bump opcount "ComposeDecompose"; Hashtbl.replace nontrivial (d ^ " " ^ prev) ();
+      report line (judge_compose_full (dec_req d) (dec_req prev) (z_of_dec_string fm) (ng = "1") (str_of_hex co)
+                     (z_of_dec_string e) (if r = "err" then None else dec_of_token r))
   | ["cs"; p; emax; emin; traps; rnd; h], rhs ->
       bump opcount "CtxSetString";
       let c = mkCtx (z_of_dec_string p) (z_of_dec_string emax) (z_of_dec_string emin)
